@@ -316,17 +316,22 @@ def judge(family, case, rec):
     # the same global generator
     import copy
     g = copy.deepcopy(f)
+    m_ = min(N, 1000)
     np.random.seed(s)
-    xg = g(min(N, 1000))
-    if xg.shape != (min(N, 1000),) or not np.array_equal(xg, x[: min(N, 1000)]):
+    xf = f(m_)          # same n for both: nothing says that a shorter draw is a prefix of a longer one
+    np.random.seed(s)
+    xg = g(m_)
+    if xg.shape != (m_,) or not np.array_equal(xg, xf):
         rec.violation("C20:%s-deepcopy-draws-differently" % kind, family, case,
                       "a deep copy of the callable does not reproduce the draws of the original after np.random.seed(s)")
     else:
         rec.count("repro:deepcopy-equal")
     np.random.seed(s)
+    x7 = f(7)
+    np.random.seed(s)
     g(5)
     np.random.seed(s)
-    if not np.array_equal(g(7), x[:7]):
+    if not np.array_equal(g(7), x7):
         rec.violation("C20:%s-deepcopy-not-reseedable" % kind, family, case, "a deep copy of the callable ignores np.random.seed on later calls")
     # reproducibility after seeding the global generator
     np.random.seed(s)
